@@ -77,6 +77,23 @@ def q_draw(qc):
     return buf.getvalue()
 
 
+def q_latex(qc):
+    from qutip_qip.circuit.texrenderer import TeXRenderer
+    return TeXRenderer(qc).latex_code()
+
+
+def q_qasm_import(qc):
+    """export, then read the text back: the importer's tables (gate signatures, user-gate definitions, registers)
+    are used on every call"""
+    import warnings
+    from qutip_qip.qasm import circuit_to_qasm_str, read_qasm
+    text = circuit_to_qasm_str(qc)
+    with warnings.catch_warnings():
+        warnings.simplefilter("ignore")
+        r = read_qasm(text, strmode=True)
+    return (text, gates_view(r), r.N, r.num_cbits)
+
+
 class PurityViolation(Exception):
     pass
 
@@ -107,7 +124,8 @@ QUERIES = {
     "compute_unitary": q_compute_unitary, "propagators": q_propagators, "propagators_compact": q_propagators_compact,
     "resolve_gates": q_resolve, "resolve_iswap": q_resolve_iswap, "adjacent_gates": q_adjacent,
     "to_chain_structure": q_chain, "reverse_circuit": q_reverse, "schedule_asap": q_schedule_asap,
-    "schedule_alap": q_schedule_alap, "qasm": q_qasm, "draw_text": q_draw,
+    "schedule_alap": q_schedule_alap, "qasm": q_qasm, "draw_text": q_draw, "latex_code": q_latex,
+    "qasm_import": q_qasm_import,
 }
 
 
@@ -206,6 +224,28 @@ def rand_lib_circuit(rng, n=None):
     return {"kind": "qpure", "n": n, "ncb": ncb, "gates": gates}
 
 
+def sibling_circuit(rng, w):
+    """the same gate names in the same order on other qubits / with other angles; witness with `after` = [w]"""
+    n = w["n"]
+    perm = list(range(n))
+    if n > 1:
+        while perm == list(range(n)):
+            rng.shuffle(perm)
+    gates = []
+    for g in w["gates"]:
+        if "M" in g:
+            gates.append({"M": perm[g["M"]], "store": g.get("store")})
+            continue
+        h = dict(g)
+        h["targets"] = None if g["targets"] is None else [perm[t] for t in g["targets"]]
+        h["controls"] = None if not g.get("controls") else [perm[t] for t in g["controls"]]
+        if isinstance(g.get("arg"), (int, float)):
+            h["arg"] = g["arg"] * 0.5
+        gates.append(h)
+    return {"kind": "qpure", "n": n, "ncb": w["ncb"], "gates": gates,
+            "after": [{k: w[k] for k in ("n", "ncb", "gates")}]}
+
+
 def build_lib_circuit(w):
     from qutip_qip.circuit import QubitCircuit
     qc = QubitCircuit(w["n"], num_cbits=w["ncb"])
@@ -244,6 +284,15 @@ def oracle_qpure(w, queries=None, fresh_ref=True):
         return False, "not constructible: " + type(e).__name__
     names = queries or w.get("queries") or sorted(QUERIES)
     refs = None
+    # history of this process: the same queries asked before on OTHER circuits (e.g. the same gate names on other
+    # qubits) — a result must not depend on it
+    for prev in w.get("after") or []:
+        try:
+            pqc = build_lib_circuit(prev)
+        except Exception:
+            continue
+        for name in names:
+            run_query(name, pqc)
     for name in names:
         before, view = snap(qc), gates_view(qc)
         first = run_query(name, qc)
@@ -1293,14 +1342,17 @@ class C16(PropertyCheck):
         qnames = sorted(QUERIES)
         for it in range(nq):
             w = rand_lib_circuit(rng)
+            if it % 2:
+                w = sibling_circuit(rng, w)
             mcase = {"n": 1, "ncb": 0, "mode": "sv", "ops": [], "lists": [], "inits": [],
                      "calls": [("query",)] * len(qnames)}
             ans = S.parse_answer(drv.run([S.encode(mcase, cfg)])[0])
             model_pure = ans[0] == "ok" and all(ch["kind"] == "Q" for ch in ans[1])
             f, d = oracle_qpure(w, qnames)
             free = [g for g in w["gates"] if "M" not in g and not g.get("controls") and g["targets"] and len(g["targets"]) > 1]
-            res.case({k: w[k] for k in ("n", "ncb", "gates")}, nontrivial=True,
-                     tags=["stream=query-library", "free-multi-target=%d" % len(free),
+            res.case({k: w[k] for k in ("n", "ncb", "gates", "after") if k in w}, nontrivial=True,
+                     tags=["stream=query-library", "after-sibling=%d" % (1 if w.get("after") else 0),
+                           "free-multi-target=%d" % len(free),
                            "descending-targets=%d" % sum(1 for g in free if g["targets"] != sorted(g["targets"]))])
             if f or not model_pure:
                 res.disagree({k: w[k] for k in ("n", "ncb", "gates")}, "Q (no attribute written)", d,
@@ -1509,6 +1561,8 @@ class C16(PropertyCheck):
             r = rng.random()
             if r < 0.25:
                 w = rand_lib_circuit(rng)
+                if rng.random() < 0.5:
+                    w = sibling_circuit(rng, w)
                 try:
                     f, d = oracle(w)
                 except Exception as e:
